@@ -5,6 +5,9 @@ package c14
 
 import (
 	"os"
+	"strings"
+
+	"google.golang.org/protobuf/proto"
 
 	"github.com/containerd/nri/pkg/api"
 )
@@ -53,6 +56,11 @@ func runCtor(in ctorIn) (o ctorObs) {
 		}
 	}()
 	var arg interface{} // stays the untyped nil for Arg "nil" (and the legacy "other:nil")
+	if strings.HasPrefix(in.Arg, "other:*Optional") {
+		// the wrapper of ANOTHER optional type (no constructor lists it): it has been through the
+		// reflection codec once, as a message that arrived over ttRPC has
+		arg = foreignWrapper(strings.TrimPrefix(in.Arg, "other:*"), in)
+	}
 	switch in.Ctor {
 	case "String":
 		switch in.Arg {
@@ -287,6 +295,71 @@ func runCtor(in ctorIn) (o ctorObs) {
 		}
 	}
 	return o
+}
+
+// foreignWrapper builds the optional wrapper of type `name` (nil when in.Nil).
+func foreignWrapper(name string, in ctorIn) interface{} {
+	var m proto.Message
+	switch name {
+	case "OptionalString":
+		if in.Nil {
+			return (*api.OptionalString)(nil)
+		}
+		m = &api.OptionalString{Value: in.S}
+	case "OptionalInt":
+		if in.Nil {
+			return (*api.OptionalInt)(nil)
+		}
+		m = &api.OptionalInt{Value: in.I}
+	case "OptionalInt32":
+		if in.Nil {
+			return (*api.OptionalInt32)(nil)
+		}
+		m = &api.OptionalInt32{Value: int32(in.I)}
+	case "OptionalUInt32":
+		if in.Nil {
+			return (*api.OptionalUInt32)(nil)
+		}
+		m = &api.OptionalUInt32{Value: uint32(in.U)}
+	case "OptionalInt64":
+		if in.Nil {
+			return (*api.OptionalInt64)(nil)
+		}
+		m = &api.OptionalInt64{Value: in.I}
+	case "OptionalUInt64":
+		if in.Nil {
+			return (*api.OptionalUInt64)(nil)
+		}
+		m = &api.OptionalUInt64{Value: in.U}
+	case "OptionalBool":
+		if in.Nil {
+			return (*api.OptionalBool)(nil)
+		}
+		m = &api.OptionalBool{Value: in.B}
+	case "OptionalFileMode":
+		if in.Nil {
+			return (*api.OptionalFileMode)(nil)
+		}
+		m = &api.OptionalFileMode{Value: uint32(in.U)}
+	default:
+		return nil
+	}
+	_, _ = proto.Marshal(m)
+	return m
+}
+
+var wrapperOf = map[string]string{"String": "OptionalString", "Int": "OptionalInt", "Int32": "OptionalInt32", "UInt32": "OptionalUInt32",
+	"Int64": "OptionalInt64", "UInt64": "OptionalUInt64", "Bool": "OptionalBool", "FileMode": "OptionalFileMode"}
+
+func init() {
+	// every constructor is also handed the wrapper of every OTHER optional type
+	for c := range ctorArgs {
+		for _, o := range ctorOrder {
+			if o != c {
+				ctorArgs[c] = append(ctorArgs[c], "other:*"+wrapperOf[o])
+			}
+		}
+	}
 }
 
 var ctorArgs = map[string][]string{
